@@ -116,6 +116,10 @@ UNITS = {
             r'^verif_lift_gz_decoder$': ['C06', 'C05'],
         },
     },
+    'seqformat': {
+        'template': 'seqformat.vrs', 'backend': 'verus',
+        'serves': ['C06'],
+    },
     'seqformat_kani': {
         'backend': 'kani', 'crate': 'seqformat_h', 'serves': ['C06'], 'needs_lock': False,
         'generate': 'gen_seqformat',
@@ -295,13 +299,14 @@ PROPS = {
         'not_reached': ['exit status / abort / hang of the process', 'counter subcommand degenerate inputs (C07 unit, if listed)', 'mmap of a zero-length output (memmap2 behaviour)'],
     },
     'C06': {
-        'units': ['reader_glue'], 'thorough_units': ['seqformat_kani'], 'deps': [], 'replay': 'c06',
+        'units': ['reader_glue', 'seqformat'], 'thorough_units': ['seqformat_kani'], 'deps': [], 'replay': 'c06',
         'level_text': 'Narrow claim. Verus proves for the verbatim Sequences::next (both arms) against a stub of the bio parser: each delivered record is the next record of the parser, '
                       'numbered with the count of records delivered before it (0,1,2,... without gaps), id and bases copied unchanged, None exactly when the parser is exhausted and the counter untouched; '
-                      'and for the lifted decoder-construction statement of get_reader against a stub of flate2 (contracts from its documentation): the decoder used for .gz input decodes ALL members.',
+                      'and for the lifted decoder-construction statement of get_reader against a stub of flate2 (contracts from its documentation): the decoder used for .gz input decodes ALL members; '
+                      'and for the verbatim SeqFormat::get, every path: the result is exactly the documented suffix table (.fq/.fastq -> FASTQ, .fa/.fasta/.fna -> FASTA, after stripping every trailing .gz, nothing else) over assumed contracts of str::ends_with / trim_end_matches.',
         'level_note': 'assumed, not verified: bio::io::{fasta,fastq} record boundaries, ids (first word), CRLF / wrapping / final newline handling, FASTQ; flate2 decoder semantics (stub contracts, exercised against the real flate2 '
-                      'by the witness search); seq_stats and iteration use the same parser (equal by determinism). SeqFormat::get: Kani on the verbatim extracted text, BOUNDED (thorough tier only, paths of 0/3/4 ASCII bytes), never counted as proved.',
-        'not_reached': ['record parsing inside bio (ids, CRLF, wrapping, FASTQ)', 'suffix inference beyond the bounded Kani stand-in', 'summary statistics loop (bio records() again)'],
+                      'by the witness search); seq_stats and iteration use the same parser (equal by determinism). SeqFormat::get additionally runs under Kani on its verbatim extracted text with the REAL std string functions, BOUNDED (thorough tier only, paths of 0/3/4 ASCII bytes), never counted as proved - a cross-check of the assumed string contracts.',
+        'not_reached': ['record parsing inside bio (ids, CRLF, wrapping, FASTQ)', 'summary statistics loop (bio records() again)'],
     },
     'C05': {
         'units': ['mmap_rows', 'batch_loops', 'reader_glue', 'sched_rows'], 'deps': ['oligo_vec', 'kmer_gen', 'posmaps'], 'replay': 'c05,c04',
